@@ -15,6 +15,7 @@ import (
 	"sync"
 	"time"
 
+	"github.com/AliceO2Group/Control/common"
 	mesos "github.com/mesos/mesos-go/api/v1/lib"
 	"github.com/mesos/mesos-go/api/v1/lib/scheduler"
 
@@ -46,26 +47,27 @@ type Rec struct {
 
 // LaunchedTask is the master's view of one task.
 type LaunchedTask struct {
-	ID         string
-	Name       string
-	AgentID    string
-	Hostname   string
-	ExecutorID string
-	EnvID      string
-	OfferID    string
-	Life       int
-	CPU, Mem   float64
-	Ports      []uint64
-	Cmd        map[string]interface{} // decoded TaskInfo.Data
-	ClassName  string
-	RolePath   string // from env var VERIF_ROLE if present in the command
-	Mode       string // control mode string from the command
-	State      string // executor-side O² state: STANDBY CONFIGURED RUNNING ERROR DONE
-	Mesos      string // TASK_STAGING TASK_RUNNING TASK_KILLED ...
-	Terminal   bool
-	KillAsked  int
-	Commands   []CommandSeen
-	SeqLaunch  int64
+	ID          string
+	Name        string
+	AgentID     string
+	Hostname    string
+	ExecutorID  string
+	EnvID       string
+	OfferID     string
+	Life        int
+	CPU, Mem    float64
+	Ports       []uint64
+	Cmd         map[string]interface{} // decoded TaskInfo.Data
+	ClassName   string
+	RolePath    string // from env var VERIF_ROLE if present in the command
+	Mode        string // control mode string from the command
+	ControlPort uint64
+	State       string // executor-side O² state: STANDBY CONFIGURED RUNNING ERROR DONE
+	Mesos       string // TASK_STAGING TASK_RUNNING TASK_KILLED ...
+	Terminal    bool
+	KillAsked   int
+	Commands    []CommandSeen
+	SeqLaunch   int64
 }
 
 type CommandSeen struct {
@@ -708,8 +710,10 @@ func (m *Master) accept(a *scheduler.Call_Accept) {
 						}
 					}
 				}
-				if cm, ok := cmd["controlmode"]; ok {
-					t.Mode = fmt.Sprint(cm)
+				var tci common.TaskCommandInfo
+				if json.Unmarshal(ti.GetData(), &tci) == nil {
+					t.Mode = tci.ControlMode.String()
+					t.ControlPort = tci.ControlPort
 				}
 			}
 			if i := strings.Index(t.Name, "#"); i > 0 {
